@@ -610,6 +610,19 @@ def _san(s):
     return str(s).lower().replace(" ", "_")
 
 
+def _coord_value(text, limit):
+    """independent reading of the coordinate texts the episodes use: d°m'[NSEW] or a numeral"""
+    import re
+    m = re.fullmatch(r"(\d{1,3})\u00b0(?:(\d{1,2})')?([NSEW])?", text)
+    if m:
+        v = int(m.group(1)) + (int(m.group(2)) / 60.0 if m.group(2) else 0.0)
+        if m.group(3) in ("S", "W"):
+            v = -v
+    else:
+        v = float(text)
+    return max(-limit, min(limit, v))
+
+
 def _c17_episode(rng, steps):
     """spec = the log of additions; returns a failure description or None"""
     import astral.geocoder as geo
@@ -617,6 +630,7 @@ def _c17_episode(rng, steps):
     builtin = rng.random() < 0.5
     db = geo.database() if builtin else {}
     log = []      # records in the order added: (name, region, tz)
+    coords = []   # (fields, how it was added) of the records added here
     if builtin:
         for r in geo.all_locations(db):
             log.append((r.name, r.region, r.timezone))
@@ -627,9 +641,17 @@ def _c17_episode(rng, steps):
                   rng.choice(corr_geo.COORDS[:6]))
         if "," in fields[0] or fields[0].startswith("#") or fields[0] != fields[0].strip():
             continue
-        form = rng.randint(0, 3)
+        form = rng.randint(0, 4)
         extra = None
-        if form == 3:
+        if form == 4:
+            # a LIST whose string item holds two lines
+            f2 = corr_geo.rand_item(rng, None)
+            f2 = (f2[0], f2[1], f2[2], rng.choice(corr_geo.COORDS[:6]), rng.choice(corr_geo.COORDS[:6]))
+            if "," in f2[0] or f2[0].startswith("#") or f2[0] != f2[0].strip():
+                continue
+            extra = f2
+            val = [",".join(fields) + "\n" + ",".join(f2)]
+        elif form == 3:
             # several records in one text, one per line (with a comment and a blank line)
             f2 = corr_geo.rand_item(rng, None)
             f2 = (f2[0], f2[1], f2[2], rng.choice(corr_geo.COORDS[:6]), rng.choice(corr_geo.COORDS[:6]))
@@ -645,8 +667,19 @@ def _c17_episode(rng, steps):
         except Exception as exc:  # noqa: BLE001
             return {"clause": "adding a well-formed record succeeds", "value": repr(val), "got": repr(exc)}
         log.append((fields[0], fields[1], fields[2]))
+        coords.append((fields, repr(val)))
         if extra is not None:
             log.append((extra[0], extra[1], extra[2]))
+            coords.append((extra, repr(val)))
+    # every added record carries the coordinates its text denotes, whatever the input form
+    stored = {}
+    for r in geo.all_locations(db):
+        stored.setdefault((r.name, r.region, r.timezone), []).append((r.latitude, r.longitude))
+    for f, how in coords:
+        want = (_coord_value(f[3], 90.0), _coord_value(f[4], 180.0))
+        if not any(abs(a - want[0]) < 1e-9 and abs(b - want[1]) < 1e-9 for a, b in stored.get((f[0], f[1], f[2]), [])):
+            return {"clause": "a stored record keeps the coordinates it was given", "added_as": how,
+                    "fields": list(f), "want": want, "stored": stored.get((f[0], f[1], f[2]))}
     got = sorted((r.name, r.region, r.timezone) for r in geo.all_locations(db))
     if got != sorted(log):
         extra = [x for x in got if x not in log][:3]
@@ -705,12 +738,16 @@ def _c17_episode(rng, steps):
         if sorted((x.name, x.region, x.timezone) for l in res.values() for x in l) != sorted(groups[g]):
             return {"clause": "the group holds exactly the records of that time-zone group",
                     "query": g, "history": history}
-    for q in ("no such place", "london,nowhere-at-all", "zz,yy"):
+    known = [n for n, r, t in log if "," not in n and n.strip("\"'") == n][:3]
+    for q in ["no such place", "london,nowhere-at-all", "zz,yy"] + [n + ",nowhere-at-all" for n in known]:
         try:
             res = geo.lookup(q, db)
             return {"clause": "unknown names raise KeyError", "query": q, "got": repr(res)}
         except KeyError:
             pass
+        except BaseException as exc:  # noqa: BLE001
+            return {"clause": "unknown names raise KeyError (and nothing else)", "query": q,
+                    "got": repr(exc), "history": history}
     fresh = geo.database()
     n_fresh = sum(1 for _ in geo.all_locations(fresh))
     n_rows = sum(1 for l in geo._LOCATION_INFO.split("\n") if l.strip() and l.strip()[0] != "#")
